@@ -1,6 +1,7 @@
 import DaskModel.Lemmas.TruthfulPaths
 import DaskModel.Props.C45
 import DaskModel.Props.C40
+import DaskModel.Lemmas.RepartDivs
 /-! # C41 — known divisions always describe the partitions truthfully (theorems)
 
 `Truthful key divs parts` (Lemmas/Truthful.lean) is the statement's predicate. One theorem per
@@ -293,57 +294,6 @@ theorem tofewer_truthful {α : Type} (key : α → Nat) (divs : List Nat) (parts
 example : toFewerDivs [0, 3, 5, 9, 12] [0, 2, 4] = some [0, 5, 12] := by decide
 
 
-/-- FULL STATEMENT for `.loc[a:b]` (`LocSlice`), `a ≤ b` or an open end -/
-def LocSliceFullStatement : Prop :=
-  ∀ (α : Type) (key : α → Nat) (divs : List Nat) (parts : List (List α)) (a b : Option Nat) (pl : LocPlan)
-    (ps' : List (List α)),
-    Truthful key divs parts → (∀ x y, a = some x → b = some y → x ≤ y) →
-    locSlice divs a b = some pl → locSliceParts key parts pl a b = some ps' → Truthful key pl.divisions ps'
-
-/-- **loc_slice_truthful — `_partial`: the selection falls into one partition** (`start = stop`; this is also
-    the shape of `.loc[k]` / `LocElement`). The reported divisions are the slice bounds themselves and the
-    single output partition holds exactly the rows with `a ≤ key ≤ b`. (The multi-partition case —
-    trimmed first/last partition, untouched middle ones — is validated by the tie; its statement is
-    `LocSliceFullStatement`.) -/
-theorem loc_slice_truthful_partial {α : Type} (key : α → Nat) (divs : List Nat) (parts : List (List α))
-    (x y : Nat) (hxy : x ≤ y) (pl : LocPlan) (ps' : List (List α))
-    (hpl : locSlice divs (some x) (some y) = some pl) (hone : pl.stop = pl.start)
-    (hps : locSliceParts key parts pl (some x) (some y) = some ps') :
-    Truthful key pl.divisions ps' := by
-  have hdivs : pl.divisions = [x, y] := by
-    unfold locSlice at hpl
-    split at hpl
-    · cases hpl
-    · split at hpl
-      · unfold locSliceCore at hpl
-        simp only at hpl
-        split at hpl
-        · cases hpl; rfl
-        · rename_i hne
-          split at hpl
-          · cases hpl; exact absurd hone hne
-          · cases hpl
-      · cases hpl
-  unfold locSliceParts at hps
-  simp only [hone, if_true, Option.bind_eq_bind, Option.bind_eq_some_iff, Option.pure_def, Option.some.injEq] at hps
-  obtain ⟨p, _, rfl⟩ := hps
-  rw [hdivs]
-  refine ⟨rfl, by simp [hxy], ?_⟩
-  intro i q lo hi hq hlo hhi r hr
-  cases i with
-  | zero =>
-    simp at hq hlo hhi
-    subst hq hlo hhi
-    unfold locRows at hr
-    simp only [List.mem_filter, Bool.and_eq_true, decide_eq_true_eq] at hr
-    exact ⟨hr.2.1, Or.inr ⟨rfl, hr.2.2⟩⟩
-  | succ i => simp at hq
-
-example : locSlice [0, 5, 18, 25, 28] (some 17) (some 31) = some ⟨1, 3, [17, 18, 25, 28]⟩ := by decide
-example : locSlice [0, 5, 18, 25, 28] (some 6) (some 9) = some ⟨1, 1, [6, 9]⟩ := by decide
-
-
-
 theorem partitionOf_eq_spp (divs : List Nat) (v : Nat) (h2 : 2 ≤ divs.length) :
     partitionOf divs v = Dask.Shuffle.setPartitionsPre divs (some v) true true := by
   unfold partitionOf Dask.Shuffle.setPartitionsPre
@@ -380,16 +330,255 @@ theorem div_le_of_sorted {divs : List Nat} (hsorted : divs.Pairwise (· ≤ ·))
     obtain ⟨hb', rfl⟩ := List.getElem?_eq_some_iff.mp hy
     exact (List.pairwise_iff_getElem.mp hsorted) a b ha' hb' hlt
 
-/-- **loc_slice_truthful** (closed slice `.loc[x:y]`, `x ≤ y`, selection spanning several partitions): the first
-    and last selected partitions are trimmed to the slice, the ones in between are untouched, and the reported
-    divisions `(max(x, d_start), d_start+1, …, d_stop, min(y, d_stop+1))` describe them truthfully. -/
-theorem loc_slice_truthful_multi {α : Type} (key : α → Nat) (divs : List Nat) (parts : List (List α))
-    (x y : Nat) (pl : LocPlan) (ps' : List (List α)) (h : Truthful key divs parts)
-    (hpl : locSlice divs (some x) (some y) = some pl) (hne : pl.stop ≠ pl.start)
-    (hps : locSliceParts key parts pl (some x) (some y) = some ps') :
-    Truthful key pl.divisions ps' := by
+/-- **window of partitions**: keep partitions `s … e` (`s < e`) of a truthful frame, trim the first to rows with
+    key `≥ ds` and the last to rows with key `≤ de`; the divisions `(ds, divs[s+1], …, divs[e], de)` describe the
+    result truthfully whenever `ds ≤ divs[s+1]` and `divs[e] ≤ de`. (Shape of `LocSlice._layer` / `_divisions`
+    for closed and open-ended slices.) -/
+theorem window_truthful {α : Type} (key : α → Nat) (divs : List Nat) (parts : List (List α))
+    (s e ds de : Nat) (first last first' last' : List α) (h : Truthful key divs parts)
+    (hse : s < e) (he : e + 1 ≤ parts.length)
+    (hfirst : parts[s]? = some first) (hlastp : parts[e]? = some last)
+    (hf' : ∀ r ∈ first', r ∈ first ∧ ds ≤ key r) (hl' : ∀ r ∈ last', r ∈ last ∧ key r ≤ de)
+    (hds : ∀ v, divs[s + 1]? = some v → ds ≤ v) (hde : ∀ v, divs[e]? = some v → v ≤ de) :
+    Truthful key (ds :: ((divs.drop (s + 1)).take (e + 1 - (s + 1)) ++ [de]))
+      (first' :: ((parts.drop (s + 1)).take (e - s - 1) ++ [last'])) := by
   obtain ⟨hlen, hsorted, hrows⟩ := h
-  -- unpack the plan
+  have ha1 := List.getElem?_eq_getElem (l := divs) (i := s + 1) (by omega)
+  have hbs := List.getElem?_eq_getElem (l := divs) (i := e) (by omega)
+  have ha0 := List.getElem?_eq_getElem (l := divs) (i := s) (by omega)
+  have hb1 := List.getElem?_eq_getElem (l := divs) (i := e + 1) (by omega)
+  have hmidlen : ((divs.drop (s + 1)).take (e + 1 - (s + 1))).length = e - s := by
+    rw [List.length_take, List.length_drop]; omega
+  have hmidget : ∀ (j : Nat), j < e - s →
+      ((divs.drop (s + 1)).take (e + 1 - (s + 1)))[j]? = divs[s + 1 + j]? := by
+    intro j hj
+    rw [List.getElem?_take, if_pos (by omega), List.getElem?_drop]
+  have hpmidlen : ((parts.drop (s + 1)).take (e - s - 1)).length = e - s - 1 := by
+    rw [List.length_take, List.length_drop]; omega
+  have hpmidget : ∀ (j : Nat), j < e - s - 1 →
+      ((parts.drop (s + 1)).take (e - s - 1))[j]? = parts[s + 1 + j]? := by
+    intro j hj
+    rw [List.getElem?_take, if_pos (by omega), List.getElem?_drop]
+  have hd'get : ∀ (j : Nat), 1 ≤ j → j ≤ e - s →
+      (ds :: ((divs.drop (s + 1)).take (e + 1 - (s + 1)) ++ [de]))[j]? = divs[s + j]? := by
+    intro j hj1 hj2
+    obtain ⟨j', rfl⟩ : ∃ j', j = j' + 1 := ⟨j - 1, by omega⟩
+    rw [List.getElem?_cons_succ, List.getElem?_append_left (by omega), hmidget j' (by omega)]
+    congr 1; omega
+  have hd'last : (ds :: ((divs.drop (s + 1)).take (e + 1 - (s + 1)) ++ [de]))[e - s + 1]? = some de := by
+    rw [List.getElem?_cons_succ, List.getElem?_append_right (by omega), hmidlen]; simp
+  have hds' : ds ≤ divs[s + 1] := hds _ ha1
+  have hde' : divs[e] ≤ de := hde _ hbs
+  refine ⟨by simp [hmidlen, hpmidlen]; omega, ?_, ?_⟩
+  · rw [List.pairwise_iff_getElem]
+    intro i j hi hj hij
+    have hlen' : (ds :: ((divs.drop (s + 1)).take (e + 1 - (s + 1)) ++ [de])).length = e - s + 2 := by
+      simp only [List.length_cons, List.length_append, hmidlen, List.length_nil]
+    have lower : ∀ (t : Nat) (_ : t < e - s + 2) (v : Nat),
+        (ds :: ((divs.drop (s + 1)).take (e + 1 - (s + 1)) ++ [de]))[t]? = some v →
+        (t = 0 → v = ds) ∧ (1 ≤ t → t ≤ e - s → divs[s + t]? = some v) ∧ (t = e - s + 1 → v = de) := by
+      intro t ht v hv
+      refine ⟨?_, ?_, ?_⟩
+      · intro h0; subst h0; simpa using hv.symm
+      · intro h1 h2; rw [hd'get t h1 h2] at hv; exact hv
+      · intro h3; subst h3; rw [hd'last] at hv; exact (Option.some.inj hv).symm
+    have hvi := List.getElem?_eq_getElem hi
+    have hvj := List.getElem?_eq_getElem hj
+    obtain ⟨li0, limid, lilast⟩ := lower i (by omega) _ hvi
+    obtain ⟨lj0, ljmid, ljlast⟩ := lower j (by omega) _ hvj
+    rcases Nat.eq_zero_or_pos i with hi0 | hipos
+    · rw [li0 hi0]
+      rcases Nat.lt_or_ge j (e - s + 1) with hjm | hjl
+      · have hjv := ljmid (by omega) (by omega)
+        have := div_le_of_sorted hsorted (s + 1) (s + j) _ _ (by omega) ha1 hjv
+        omega
+      · rw [ljlast (by omega)]
+        have := div_le_of_sorted hsorted (s + 1) e _ _ (by omega) ha1 hbs
+        omega
+    · have hiv := limid hipos (by omega)
+      rcases Nat.lt_or_ge j (e - s + 1) with hjm | hjl
+      · exact div_le_of_sorted hsorted (s + i) (s + j) _ _ (by omega) hiv (ljmid (by omega) (by omega))
+      · rw [ljlast (by omega)]
+        have := div_le_of_sorted hsorted (s + i) e _ _ (by omega) hiv hbs
+        omega
+  · intro j p lo hi hp hlo hhi r hr
+    have hplen : (first' :: ((parts.drop (s + 1)).take (e - s - 1) ++ [last'])).length = e - s + 1 := by
+      simp [hpmidlen]; omega
+    have hjlt : j < e - s + 1 := by
+      have := (List.getElem?_eq_some_iff.mp hp).1; omega
+    rcases Nat.eq_zero_or_pos j with hj0 | hjpos
+    · subst hj0
+      simp only [List.getElem?_cons_zero, Option.some.injEq] at hp hlo
+      subst hp; subst hlo
+      rw [hd'get 1 (by omega) (by omega), ha1] at hhi
+      cases hhi
+      obtain ⟨hrf, hxr⟩ := hf' r hr
+      obtain ⟨hlow, hup⟩ := hrows s first _ _ hfirst ha0 ha1 r hrf
+      refine ⟨hxr, Or.inl ?_⟩
+      rcases hup with h1 | ⟨h2, _⟩
+      · exact h1
+      · omega
+    · rcases Nat.lt_or_ge j (e - s) with hjm | hjl
+      · obtain ⟨j', rfl⟩ : ∃ j', j = j' + 1 := ⟨j - 1, by omega⟩
+        rw [List.getElem?_cons_succ, List.getElem?_append_left (by omega), hpmidget j' (by omega)] at hp
+        rw [hd'get (j' + 1) (by omega) (by omega)] at hlo
+        rw [hd'get (j' + 1 + 1) (by omega) (by omega)] at hhi
+        have e1 : s + 1 + j' = s + (j' + 1) := by omega
+        have e2 : s + (j' + 1 + 1) = s + (j' + 1) + 1 := by omega
+        rw [e1] at hp; rw [e2] at hhi
+        obtain ⟨hlow, hup⟩ := hrows (s + (j' + 1)) p lo hi hp hlo hhi r hr
+        refine ⟨hlow, Or.inl ?_⟩
+        rcases hup with h1 | ⟨h2, _⟩
+        · exact h1
+        · omega
+      · have hje : j = e - s := by omega
+        subst hje
+        have hpl' := getElem?_last_of_cons_append first' last'
+          ((parts.drop (s + 1)).take (e - s - 1)) (e - s) (by rw [hpmidlen]; omega)
+        rw [hpl'] at hp
+        have hp2 := Option.some.inj hp
+        subst hp2
+        rw [hd'get (e - s) (by omega) (by omega)] at hlo
+        have e3 : s + (e - s) = e := by omega
+        rw [e3, hbs] at hlo
+        cases hlo
+        rw [hd'last] at hhi
+        cases hhi
+        obtain ⟨hrl, hry⟩ := hl' r hr
+        obtain ⟨hlow, hup⟩ := hrows e last _ _ hlastp hbs hb1 r hrl
+        exact ⟨hlow, Or.inr ⟨by omega, hry⟩⟩
+
+
+theorem single_truthful {α : Type} (key : α → Nat) (lo' hi' : Nat) (p' : List α) (hle : lo' ≤ hi')
+    (hr : ∀ r ∈ p', lo' ≤ key r ∧ key r ≤ hi') : Truthful key [lo', hi'] [p'] := by
+  refine ⟨rfl, by simp [hle], ?_⟩
+  intro i q lo hi hq hlo hhi r hrq
+  cases i with
+  | zero =>
+    simp at hq hlo hhi
+    subst hq hlo hhi
+    exact ⟨(hr r hrq).1, Or.inr ⟨rfl, (hr r hrq).2⟩⟩
+  | succ i => simp at hq
+
+theorem mem_locRows {α : Type} {key : α → Nat} {rows : List α} {a b : Option Nat} {r : α}
+    (h : r ∈ locRows key rows a b) :
+    r ∈ rows ∧ (∀ x, a = some x → x ≤ key r) ∧ (∀ y, b = some y → key r ≤ y) := by
+  unfold locRows at h
+  simp only [List.mem_filter, Bool.and_eq_true] at h
+  obtain ⟨hm, h1, h2⟩ := h
+  refine ⟨hm, ?_, ?_⟩
+  · intro x hx; subst hx; simpa using h1
+  · intro y hy; subst hy; simpa using h2
+
+/-- facts about a frame's division vector used by the `.loc` theorems -/
+structure DivFacts (divs : List Nat) (d0 dl : Nat) : Prop where
+  two : 2 ≤ divs.length
+  sorted : divs.Pairwise (· ≤ ·)
+  head : divs.head? = some d0
+  last : divs.getLast? = some dl
+
+theorem DivFacts.get0 {divs : List Nat} {d0 dl : Nat} (f : DivFacts divs d0 dl) : divs[0]? = some d0 := by
+  have := f.head
+  cases divs with
+  | nil => cases this
+  | cons a _ => simpa using this
+
+theorem DivFacts.getL {divs : List Nat} {d0 dl : Nat} (f : DivFacts divs d0 dl) :
+    divs[divs.length - 1]? = some dl := by
+  rw [← List.getLast?_eq_getElem?]; exact f.last
+
+/-- lower end of a `.loc` selection: start partition `s = locStart divs a`, first reported division `ds` -/
+theorem lower_end {divs : List Nat} {d0 dl : Nat} (f : DivFacts divs d0 dl) (a b : Option Nat) :
+    locStart divs a + 2 ≤ divs.length ∧
+    ∀ ds, locDStart divs d0 a b = some ds →
+      (locStart divs a + 3 ≤ divs.length → ∀ v, divs[locStart divs a + 1]? = some v → ds ≤ v) ∧
+      (∀ a0, divs[locStart divs a]? = some a0 → a0 ≤ ds) ∧ (∀ x, a = some x → x ≤ ds) ∧
+      (a = none → divs[locStart divs a]? = some ds) := by
+  cases a with
+  | none =>
+    simp only [locStart, locDStart]
+    refine ⟨by have := f.two; omega, ?_⟩
+    intro ds hds
+    cases hds
+    refine ⟨fun _ v hv => div_le_of_sorted f.sorted 0 1 _ _ (by omega) f.get0 hv, ?_, ?_, fun _ => f.get0⟩
+    · intro a0 ha0; rw [f.get0] at ha0; cases ha0; exact Nat.le_refl _
+    · intro x hx; cases hx
+  | some x =>
+    simp only [locStart, locDStart, locIStart]
+    obtain ⟨hsb, hsin, hshi, hslo⟩ := partitionOf_spec divs x d0 dl f.sorted f.two f.head f.last
+    refine ⟨hsb, ?_⟩
+    intro ds hds
+    simp only [Option.map_eq_some_iff] at hds
+    obtain ⟨a0, ha0, rfl⟩ := hds
+    refine ⟨?_, ?_, ?_, fun h => by cases h⟩
+    · intro h3 v hv
+      have hav := div_le_of_sorted f.sorted _ _ _ _ (Nat.le_succ _) ha0 hv
+      have hx1 : x < v := by
+        rcases Nat.lt_or_ge x d0 with hxl | hxg
+        · have := div_le_of_sorted f.sorted 0 (partitionOf divs x + 1) d0 _ (Nat.zero_le _) f.get0 hv
+          omega
+        · rcases Nat.lt_or_ge x dl with hxl | hxg2
+          · obtain ⟨lo, hi, hlo, hhi, _, hxhi⟩ := hsin hxg hxl
+            rw [hv] at hhi; cases hhi; exact hxhi
+          · have h1 := hshi hxg2
+            omega
+      omega
+    · intro a0' ha0'; rw [ha0] at ha0'; cases ha0'; omega
+    · intro x' hx'; cases hx'; omega
+
+/-- upper end of a `.loc` selection: stop partition `e = locStop divs b`, last reported division `de` -/
+theorem upper_end {divs : List Nat} {d0 dl : Nat} (f : DivFacts divs d0 dl) (a b : Option Nat) :
+    locStop divs b + 2 ≤ divs.length ∧
+    ∀ de, locDStop divs dl a b = some de →
+      (1 ≤ locStop divs b → ∀ v, divs[locStop divs b]? = some v → v ≤ de) ∧
+      (∀ b1, divs[locStop divs b + 1]? = some b1 → de ≤ b1) ∧ (∀ y, b = some y → de ≤ y) ∧
+      (b = none → divs[locStop divs b + 1]? = some de ∧ locStop divs b + 2 = divs.length) := by
+  cases b with
+  | none =>
+    simp only [locStop, locDStop]
+    refine ⟨by have := f.two; omega, ?_⟩
+    intro de hde
+    cases hde
+    have hL : divs[divs.length - 2 + 1]? = some dl := by
+      rw [← f.getL]; congr 1; have := f.two; omega
+    refine ⟨fun _ v hv => div_le_of_sorted f.sorted _ _ _ _ (Nat.le_succ _) hv hL, ?_, ?_,
+      fun _ => ⟨hL, by have := f.two; omega⟩⟩
+    · intro b1 hb1; rw [hL] at hb1; cases hb1; exact Nat.le_refl _
+    · intro y hy; cases hy
+  | some y =>
+    simp only [locStop, locDStop, locIStop]
+    obtain ⟨hpb, hpin, hphi, hplo⟩ := partitionOf_spec divs y d0 dl f.sorted f.two f.head f.last
+    refine ⟨hpb, ?_⟩
+    intro de hde
+    simp only [Option.map_eq_some_iff] at hde
+    obtain ⟨b1, hb1, rfl⟩ := hde
+    refine ⟨?_, ?_, ?_, fun h => by cases h⟩
+    · intro h1 v hv
+      have hvb := div_le_of_sorted f.sorted _ _ _ _ (Nat.le_succ _) hv hb1
+      have hy1 : v ≤ y := by
+        rcases Nat.lt_or_ge y d0 with hyl | hyg
+        · have := hplo hyl; omega
+        · rcases Nat.lt_or_ge y dl with hyl | hyg2
+          · obtain ⟨lo, hi, hlo, _, hloy, _⟩ := hpin hyg hyl
+            rw [hv] at hlo; cases hlo; exact hloy
+          · have := div_le_of_sorted f.sorted (partitionOf divs y) (divs.length - 1) _ dl (by omega) hv f.getL
+            omega
+      omega
+    · intro b1' hb1'; rw [hb1] at hb1'; cases hb1'; omega
+    · intro y' hy'; cases hy'; omega
+
+/-- FULL STATEMENT for `.loc[a:b]` (`LocSlice`), `a ≤ b` or an open end -/
+def LocSliceFullStatement : Prop :=
+  ∀ (α : Type) (key : α → Nat) (divs : List Nat) (parts : List (List α)) (a b : Option Nat) (pl : LocPlan)
+    (ps' : List (List α)),
+    Truthful key divs parts → (∀ x y, a = some x → b = some y → x ≤ y) →
+    locSlice divs a b = some pl → locSliceParts key parts pl a b = some ps' → Truthful key pl.divisions ps'
+
+/-- **`.loc[a:b]` keeps divisions truthful — full statement**: closed slices, `.loc[x:]`, `.loc[:y]`, `.loc[:]`;
+    selection inside one partition (divisions = `(istart, istop)`) or spanning several (first and last
+    partition trimmed, the ones in between untouched, divisions `(div_start, d_start+1, …, d_stop, div_stop)`). -/
+theorem loc_slice_truthful_full : LocSliceFullStatement := by
+  intro α key divs parts a b pl ps' h hab hpl hps
   have h2' : 2 ≤ divs.length := by
     apply Nat.le_of_not_lt
     intro hcon
@@ -403,202 +592,284 @@ theorem loc_slice_truthful_multi {α : Type} (key : α → Nat) (divs : List Nat
     cases hq : divs.getLast? with
     | none => rw [List.getLast?_eq_none_iff] at hq; subst hq; simp at h2'
     | some v => exact ⟨v, rfl⟩
+  have f : DivFacts divs d0 dl := ⟨h2', h.2.1, hd0, hdl⟩
   simp only [locSlice, h2, if_false, hd0, hdl] at hpl
+  obtain ⟨hlen, hsorted, hrows⟩ := h
+  obtain ⟨hsb, hlow⟩ := lower_end f a b
+  obtain ⟨heb, hupp⟩ := upper_end f a b
   unfold locSliceCore at hpl
   simp only at hpl
-  have hne' : ¬ partitionOf divs y = partitionOf divs x := by
-    intro heq
-    simp only [heq, if_true, Option.some.injEq] at hpl
+  by_cases hone : locStop divs b = locStart divs a
+  · -- the selection falls into one partition
+    simp only [hone, if_true, Option.some.injEq] at hpl
     subst hpl
-    exact hne rfl
-  simp only [hne', if_false] at hpl
-  obtain ⟨a0', ha0'⟩ : ∃ v, divs[partitionOf divs x]? = some v := by
-    cases hq : divs[partitionOf divs x]? with
-    | none => simp [hq] at hpl
-    | some v => exact ⟨v, rfl⟩
-  obtain ⟨b1', hb1'⟩ : ∃ v, divs[partitionOf divs y + 1]? = some v := by
-    cases hq : divs[partitionOf divs y + 1]? with
-    | none => simp [ha0', hq] at hpl
-    | some v => exact ⟨v, rfl⟩
-  simp only [ha0', hb1', Option.map_some, Option.some.injEq] at hpl
-  subst hpl
-  simp only at hne hps ⊢
-  -- abbreviations
-  obtain ⟨hsb, hsin, hshi, hslo⟩ := partitionOf_spec divs x d0 dl hsorted h2' hd0 hdl
-  obtain ⟨hpb, hpin, hphi, hplo⟩ := partitionOf_spec divs y d0 dl hsorted h2' hd0 hdl
-  -- the partitions
-  unfold locSliceParts at hps
-  simp only [hne, if_false, Option.bind_eq_bind] at hps
-  split at hps
-  · cases hps
-  rename_i hnlt
-  have hlt : (partitionOf divs x) < (partitionOf divs y) :=
-    Nat.lt_of_le_of_ne (Nat.le_of_not_lt hnlt) (fun h => hne h.symm)
-  simp only [Option.bind_eq_some_iff, Option.pure_def, Option.some.injEq] at hps
-  obtain ⟨first, hfirst, last, hlastp, rfl⟩ := hps
-  have hn : (partitionOf divs y) + 1 ≤ parts.length := by omega
-  -- values of the divisions involved
-  obtain ⟨a0, ha0⟩ : ∃ a0, a0 = a0' ∧ True := ⟨a0', rfl, trivial⟩
-  obtain ⟨rfl, _⟩ := ha0
-  obtain ⟨b1, hb1x⟩ : ∃ b1, b1 = b1' ∧ True := ⟨b1', rfl, trivial⟩
-  obtain ⟨rfl, _⟩ := hb1x
-  have ha0 : divs[(partitionOf divs x)]? = some a0 := ha0'
-  have hb1 : divs[(partitionOf divs y) + 1]? = some b1 := hb1'
-  have ha1 := List.getElem?_eq_getElem (l := divs) (i := (partitionOf divs x) + 1) (by omega)
-  have hbs := List.getElem?_eq_getElem (l := divs) (i := (partitionOf divs y)) (by omega)
-  -- x is below the division after `(partitionOf divs x)`, y is at or above the division at `(partitionOf divs y)`
-  have hx1 : x < divs[(partitionOf divs x) + 1] := by
-    rcases Nat.lt_or_ge x d0 with hxl | hxg
-    · have hd0' : divs[0]? = some d0 := by
-        cases divs with
-        | nil => simp at h2'
-        | cons a _ => simpa using hd0
-      have := div_le_of_sorted hsorted 0 ((partitionOf divs x) + 1) d0 _ (Nat.zero_le _) hd0' ha1
-      exact Nat.lt_of_lt_of_le hxl this
-    · rcases Nat.lt_or_ge x dl with hxl | hxg2
-      · obtain ⟨lo, hi, hlo, hhi, _, hxhi⟩ := hsin hxg hxl
-        rw [ha1] at hhi; cases hhi; exact hxhi
-      · have := hshi hxg2; omega
-  have hy1 : divs[(partitionOf divs y)] ≤ y := by
-    rcases Nat.lt_or_ge y d0 with hyl | hyg
-    · have := hplo hyl; omega
-    · rcases Nat.lt_or_ge y dl with hyl | hyg2
-      · obtain ⟨lo, hi, hlo, _, hloy, _⟩ := hpin hyg hyl
-        rw [hbs] at hlo; cases hlo; exact hloy
-      · have hlast' : divs[divs.length - 1]? = some dl := by rw [← List.getLast?_eq_getElem?]; exact hdl
-        have := div_le_of_sorted hsorted (partitionOf divs y) (divs.length - 1) _ dl (by omega) hbs hlast'
-        omega
-  -- shape of the middle divisions
-  have hmidlen : ((divs.drop ((partitionOf divs x) + 1)).take ((partitionOf divs y) + 1 - ((partitionOf divs x) + 1))).length = (partitionOf divs y) - (partitionOf divs x) := by
-    rw [List.length_take, List.length_drop]; omega
-  have hmidget : ∀ (j : Nat), j < (partitionOf divs y) - (partitionOf divs x) →
-      ((divs.drop ((partitionOf divs x) + 1)).take ((partitionOf divs y) + 1 - ((partitionOf divs x) + 1)))[j]? = divs[(partitionOf divs x) + 1 + j]? := by
-    intro j hj
-    rw [List.getElem?_take, if_pos (by omega), List.getElem?_drop]
-  have hpmidlen : ((parts.drop ((partitionOf divs x) + 1)).take ((partitionOf divs y) - (partitionOf divs x) - 1)).length = (partitionOf divs y) - (partitionOf divs x) - 1 := by
-    rw [List.length_take, List.length_drop]; omega
-  have hpmidget : ∀ (j : Nat), j < (partitionOf divs y) - (partitionOf divs x) - 1 →
-      ((parts.drop ((partitionOf divs x) + 1)).take ((partitionOf divs y) - (partitionOf divs x) - 1))[j]? = parts[(partitionOf divs x) + 1 + j]? := by
-    intro j hj
-    rw [List.getElem?_take, if_pos (by omega), List.getElem?_drop]
-  -- every reported division by position
-  have hd'get : ∀ (j : Nat), 1 ≤ j → j ≤ (partitionOf divs y) - (partitionOf divs x) →
-      (max x a0 :: ((divs.drop ((partitionOf divs x) + 1)).take ((partitionOf divs y) + 1 - ((partitionOf divs x) + 1)) ++ [min y b1]))[j]? = divs[(partitionOf divs x) + j]? := by
-    intro j hj1 hj2
-    obtain ⟨j', rfl⟩ : ∃ j', j = j' + 1 := ⟨j - 1, by omega⟩
-    rw [List.getElem?_cons_succ, List.getElem?_append_left (by omega), hmidget j' (by omega)]
-    congr 1; omega
-  have hd'last : (max x a0 :: ((divs.drop ((partitionOf divs x) + 1)).take ((partitionOf divs y) + 1 - ((partitionOf divs x) + 1)) ++ [min y b1]))[(partitionOf divs y) - (partitionOf divs x) + 1]? = some (min y b1) := by
-    rw [List.getElem?_cons_succ, List.getElem?_append_right (by omega), hmidlen]; simp
-  refine ⟨by simp [hmidlen, hpmidlen]; omega, ?_, ?_⟩
-  · -- sorted
-    rw [List.pairwise_iff_getElem]
-    intro i j hi hj hij
-    have hlen' : (max x a0 :: ((divs.drop ((partitionOf divs x) + 1)).take ((partitionOf divs y) + 1 - ((partitionOf divs x) + 1)) ++ [min y b1])).length = (partitionOf divs y) - (partitionOf divs x) + 2 := by
-      simp only [List.length_cons, List.length_append, hmidlen, List.length_nil]
-    -- value at a position, as a bound
-    have lower : ∀ (t : Nat) (ht : t < (partitionOf divs y) - (partitionOf divs x) + 2) (v : Nat),
-        (max x a0 :: ((divs.drop ((partitionOf divs x) + 1)).take ((partitionOf divs y) + 1 - ((partitionOf divs x) + 1)) ++ [min y b1]))[t]? = some v →
-        (t = 0 → v = max x a0) ∧ (1 ≤ t → t ≤ (partitionOf divs y) - (partitionOf divs x) → divs[(partitionOf divs x) + t]? = some v) ∧ (t = (partitionOf divs y) - (partitionOf divs x) + 1 → v = min y b1) := by
-      intro t ht v hv
-      refine ⟨?_, ?_, ?_⟩
-      · intro h0; subst h0; simpa using hv.symm
-      · intro h1 h2; rw [hd'get t h1 h2] at hv; exact hv
-      · intro h3; subst h3; rw [hd'last] at hv; exact (Option.some.inj hv).symm
-    have hvi := List.getElem?_eq_getElem hi
-    have hvj := List.getElem?_eq_getElem hj
-    obtain ⟨li0, limid, lilast⟩ := lower i (by omega) _ hvi
-    obtain ⟨lj0, ljmid, ljlast⟩ := lower j (by omega) _ hvj
-    have hmax_le : max x a0 ≤ divs[(partitionOf divs x) + 1] := by
-      have := div_le_of_sorted hsorted (partitionOf divs x) ((partitionOf divs x) + 1) a0 _ (by omega) ha0 ha1
-      omega
-    have hmin_ge : divs[(partitionOf divs y)] ≤ min y b1 := by
-      have := div_le_of_sorted hsorted (partitionOf divs y) ((partitionOf divs y) + 1) _ b1 (by omega) hbs hb1
-      omega
-    rcases Nat.eq_zero_or_pos i with hi0 | hipos
-    · rw [li0 hi0]
-      rcases Nat.lt_or_ge j ((partitionOf divs y) - (partitionOf divs x) + 1) with hjm | hjl
-      · have hjv := ljmid (by omega) (by omega)
-        have := div_le_of_sorted hsorted ((partitionOf divs x) + 1) ((partitionOf divs x) + j) _ _ (by omega) ha1 hjv
-        omega
-      · rw [ljlast (by omega)]
-        have := div_le_of_sorted hsorted ((partitionOf divs x) + 1) (partitionOf divs y) _ _ (by omega) ha1 hbs
-        omega
-    · have hiv := limid hipos (by omega)
-      rcases Nat.lt_or_ge j ((partitionOf divs y) - (partitionOf divs x) + 1) with hjm | hjl
-      · exact div_le_of_sorted hsorted ((partitionOf divs x) + i) ((partitionOf divs x) + j) _ _ (by omega) hiv (ljmid (by omega) (by omega))
-      · rw [ljlast (by omega)]
-        have := div_le_of_sorted hsorted ((partitionOf divs x) + i) (partitionOf divs y) _ _ (by omega) hiv hbs
-        omega
-  · -- row bounds
-    intro j p lo hi hp hlo hhi r hr
-    have hplen : (locRows key first (some x) none :: ((parts.drop ((partitionOf divs x) + 1)).take ((partitionOf divs y) - (partitionOf divs x) - 1) ++ [locRows key last none (some y)])).length = (partitionOf divs y) - (partitionOf divs x) + 1 := by
-      simp [hpmidlen]; omega
-    have hjlt : j < (partitionOf divs y) - (partitionOf divs x) + 1 := by
-      have := (List.getElem?_eq_some_iff.mp hp).1; omega
-    rcases Nat.eq_zero_or_pos j with hj0 | hjpos
-    · -- first selected partition
-      subst hj0
-      simp only [List.getElem?_cons_zero, Option.some.injEq] at hp hlo
-      subst hp; subst hlo
-      rw [hd'get 1 (by omega) (by omega), ha1] at hhi
-      cases hhi
-      unfold locRows at hr
-      simp only [List.mem_filter, Bool.and_eq_true, decide_eq_true_eq, Bool.and_true] at hr
-      obtain ⟨hrf, hxr⟩ := hr
-      obtain ⟨hlow, hup⟩ := hrows (partitionOf divs x) first a0 _ hfirst ha0 ha1 r hrf
-      refine ⟨by omega, Or.inl ?_⟩
-      rcases hup with h1 | ⟨h2, _⟩
-      · exact h1
-      · omega
-    · rcases Nat.lt_or_ge j ((partitionOf divs y) - (partitionOf divs x)) with hjm | hjl
-      · -- an untouched middle partition
-        obtain ⟨j', rfl⟩ : ∃ j', j = j' + 1 := ⟨j - 1, by omega⟩
-        rw [List.getElem?_cons_succ, List.getElem?_append_left (by omega), hpmidget j' (by omega)] at hp
-        rw [hd'get (j' + 1) (by omega) (by omega)] at hlo
-        rw [hd'get (j' + 1 + 1) (by omega) (by omega)] at hhi
-        have e1 : (partitionOf divs x) + 1 + j' = (partitionOf divs x) + (j' + 1) := by omega
-        have e2 : (partitionOf divs x) + (j' + 1 + 1) = (partitionOf divs x) + (j' + 1) + 1 := by omega
-        rw [e1] at hp; rw [e2] at hhi
-        obtain ⟨hlow, hup⟩ := hrows ((partitionOf divs x) + (j' + 1)) p lo hi hp hlo hhi r hr
-        refine ⟨hlow, Or.inl ?_⟩
-        rcases hup with h1 | ⟨h2, _⟩
-        · exact h1
-        · omega
-      · -- last selected partition
-        have hje : j = (partitionOf divs y) - (partitionOf divs x) := by omega
-        subst hje
-        have hpl' := getElem?_last_of_cons_append (locRows key first (some x) none) (locRows key last none (some y))
-          ((parts.drop ((partitionOf divs x) + 1)).take ((partitionOf divs y) - (partitionOf divs x) - 1))
-          ((partitionOf divs y) - (partitionOf divs x)) (by rw [hpmidlen]; omega)
-        rw [hpl'] at hp
-        have hp2 := Option.some.inj hp
-        subst hp2
-        rw [hd'get ((partitionOf divs y) - (partitionOf divs x)) (by omega) (by omega)] at hlo
-        have e3 : (partitionOf divs x) + ((partitionOf divs y) - (partitionOf divs x)) = (partitionOf divs y) := by omega
-        rw [e3, hbs] at hlo
-        cases hlo
-        rw [hd'last] at hhi
-        cases hhi
-        unfold locRows at hr
-        simp only [List.mem_filter, Bool.and_eq_true, decide_eq_true_eq, Bool.true_and] at hr
-        obtain ⟨hrl, hry⟩ := hr
-        obtain ⟨hlow, hup⟩ := hrows (partitionOf divs y) last _ b1 hlastp hbs hb1 r hrl
-        refine ⟨hlow, Or.inr ⟨by omega, ?_⟩⟩
-        rcases hup with h1 | ⟨_, h2⟩ <;> omega
+    unfold locSliceParts at hps
+    simp only [if_true, Option.bind_eq_bind, Option.bind_eq_some_iff, Option.pure_def, Option.some.injEq] at hps
+    obtain ⟨p, hp, rfl⟩ := hps
+    have hs1 := List.getElem?_eq_getElem (l := divs) (i := locStart divs a) (by omega)
+    have hs2 := List.getElem?_eq_getElem (l := divs) (i := locStart divs a + 1) (by omega)
+    have hkeys : ∀ r ∈ p, divs[locStart divs a] ≤ key r ∧ key r ≤ divs[locStart divs a + 1] := by
+      intro r hr
+      have := hrows _ p _ _ hp hs1 hs2 r hr
+      refine ⟨this.1, ?_⟩
+      rcases this.2 with h1 | ⟨_, h1⟩ <;> omega
+    have hd0le : d0 ≤ divs[locStart divs a] := div_le_of_sorted hsorted 0 _ _ _ (Nat.zero_le _) f.get0 hs1
+    have hdlge : divs[locStart divs a + 1] ≤ dl :=
+      div_le_of_sorted hsorted _ (divs.length - 1) _ _ (by omega) hs2 f.getL
+    cases a with
+    | none =>
+      cases b with
+      | none =>
+        refine single_truthful key _ _ _ ?_ ?_
+        · simp only [locIStart, locIStop]
+          exact div_le_of_sorted hsorted 0 (divs.length - 1) _ _ (Nat.zero_le _) f.get0 f.getL
+        · intro r hr
+          obtain ⟨hm, _, _⟩ := mem_locRows hr
+          have := hkeys r hm
+          simp only [locIStart, locIStop]; omega
+      | some y =>
+        refine single_truthful key _ _ _ ?_ ?_
+        · simp only [locIStart, locIStop]; omega
+        · intro r hr
+          obtain ⟨hm, _, h2⟩ := mem_locRows hr
+          have := hkeys r hm
+          have := h2 y rfl
+          simp only [locIStart, locIStop]; omega
+    | some x =>
+      cases b with
+      | none =>
+        refine single_truthful key _ _ _ ?_ ?_
+        · simp only [locIStart, locIStop]; omega
+        · intro r hr
+          obtain ⟨hm, h1, _⟩ := mem_locRows hr
+          have := hkeys r hm
+          have := h1 x rfl
+          simp only [locIStart, locIStop]; omega
+      | some y =>
+        refine single_truthful key _ _ _ ?_ ?_
+        · simp only [locIStart, locIStop]; exact hab x y rfl rfl
+        · intro r hr
+          obtain ⟨hm, h1, h2⟩ := mem_locRows hr
+          have := h1 x rfl
+          have := h2 y rfl
+          simp only [locIStart, locIStop]; omega
+  · -- several partitions
+    simp only [hone, if_false] at hpl
+    cases hds : locDStart divs d0 a b with
+    | none => rw [hds] at hpl; simp at hpl
+    | some ds =>
+      cases hde : locDStop divs dl a b with
+      | none => rw [hds, hde] at hpl; simp at hpl
+      | some de =>
+        rw [hds, hde] at hpl
+        simp only [Option.some.injEq] at hpl
+        subst hpl
+        unfold locSliceParts at hps
+        simp only [hone, if_false, Option.bind_eq_bind] at hps
+        split at hps
+        · cases hps
+        rename_i hnlt
+        have hlt : locStart divs a < locStop divs b :=
+          Nat.lt_of_le_of_ne (Nat.le_of_not_lt hnlt) (fun h => hone h.symm)
+        simp only [Option.bind_eq_some_iff, Option.pure_def, Option.some.injEq] at hps
+        obtain ⟨first, hfirst, last, hlastp, rfl⟩ := hps
+        obtain ⟨hl1, hl2, hl3, hl4⟩ := hlow ds hds
+        obtain ⟨hu1, hu2, hu3, hu4⟩ := hupp de hde
+        have hs1 := List.getElem?_eq_getElem (l := divs) (i := locStart divs a) (by omega)
+        have he1 := List.getElem?_eq_getElem (l := divs) (i := locStop divs b) (by omega)
+        have he2 := List.getElem?_eq_getElem (l := divs) (i := locStop divs b + 1) (by omega)
+        refine window_truthful key divs parts (locStart divs a) (locStop divs b) ds de first last _ _
+          ⟨hlen, hsorted, hrows⟩ hlt (by omega) hfirst hlastp ?_ ?_ (hl1 (by omega)) (hu1 (by omega))
+        · intro r hr
+          obtain ⟨hm, h1, _⟩ := mem_locRows hr
+          refine ⟨hm, ?_⟩
+          cases a with
+          | none =>
+            have := hl4 rfl
+            rw [hs1] at this; cases this
+            exact (hrows _ first _ _ hfirst hs1 (List.getElem?_eq_getElem (by omega)) r hm).1
+          | some x =>
+            -- ds = max x a0
+            simp only [locDStart, locIStart, Option.map_eq_some_iff] at hds
+            obtain ⟨a0, ha0, rfl⟩ := hds
+            have hk := (hrows _ first _ _ hfirst ha0 (List.getElem?_eq_getElem (by omega)) r hm).1
+            have := h1 x rfl
+            omega
+        · intro r hr
+          obtain ⟨hm, _, h2⟩ := mem_locRows hr
+          refine ⟨hm, ?_⟩
+          have hk := (hrows _ last _ _ hlastp he1 he2 r hm).2
+          cases b with
+          | none =>
+            obtain ⟨h5, h6⟩ := hu4 rfl
+            rw [he2] at h5; cases h5
+            rcases hk with hk | ⟨_, hk⟩ <;> omega
+          | some y =>
+            simp only [locDStop, locIStop, Option.map_eq_some_iff] at hde
+            obtain ⟨b1, hb1, rfl⟩ := hde
+            rw [he2] at hb1; cases hb1
+            have := h2 y rfl
+            rcases hk with hk | ⟨_, hk⟩ <;> omega
 
-
-/-- **loc_slice_truthful** (closed slice `.loc[x:y]`): whatever the number of partitions the selection touches,
-    the reported divisions describe the resulting partitions truthfully. (Open-ended slices `.loc[x:]`, `.loc[:y]`
-    are validated by the tie; `LocSliceFullStatement` is the statement including them.) -/
+/-- **loc_slice_truthful** (closed slice `.loc[x:y]`, `x ≤ y`) — instance of the full statement -/
 theorem loc_slice_truthful {α : Type} (key : α → Nat) (divs : List Nat) (parts : List (List α))
     (x y : Nat) (hxy : x ≤ y) (pl : LocPlan) (ps' : List (List α)) (h : Truthful key divs parts)
     (hpl : locSlice divs (some x) (some y) = some pl)
     (hps : locSliceParts key parts pl (some x) (some y) = some ps') :
-    Truthful key pl.divisions ps' := by
-  by_cases hone : pl.stop = pl.start
-  · exact loc_slice_truthful_partial key divs parts x y hxy pl ps' hpl hone hps
-  · exact loc_slice_truthful_multi key divs parts x y pl ps' h hpl hone hps
+    Truthful key pl.divisions ps' :=
+  loc_slice_truthful_full α key divs parts (some x) (some y) pl ps' h
+    (fun x' y' hx hy => by cases hx; cases hy; exact hxy) hpl hps
+
+example : locSlice [0, 5, 18, 25, 28] (some 17) (some 31) = some ⟨1, 3, [17, 18, 25, 28]⟩ := by decide
+example : locSlice [0, 5, 18, 25, 28] (some 6) (some 9) = some ⟨1, 1, [6, 9]⟩ := by decide
+example : locSlice [0, 5, 18, 25, 28] (some 6) none = some ⟨1, 3, [6, 18, 25, 28]⟩ := by decide
+example : locSlice [0, 5, 18, 25, 28] none (some 20) = some ⟨0, 2, [0, 5, 18, 20]⟩ := by decide
+example : locSlice [0, 5, 18, 25, 28] none none = some ⟨0, 3, [0, 5, 18, 25, 28]⟩ := by decide
+example : locSlice [0, 5, 18, 25, 28] (some 40) none = some ⟨3, 3, [40, 40]⟩ := by decide
+example : locSliceParts (fun (k : Nat) => k) [[0, 2], [5, 9], [18, 20], [25, 28]] ⟨1, 3, [6, 18, 25, 28]⟩ (some 6) none =
+    some [[9], [18, 20], [25, 28]] := by decide
+
+/-- **index-aligned binary operations** (index merge / join, `concat(axis=1)`, arithmetic between co-aligned
+    frames — after `align_partitions` both inputs have the same divisions): if every row of output partition `j`
+    carries the index key of some row of partition `j` of one of the inputs, the common divisions stay truthful. -/
+theorem aligned_binary_truthful {α β γ : Type} (keyL : α → Nat) (keyR : β → Nat) (key : γ → Nat) (divs : List Nat)
+    (L : List (List α)) (R : List (List β)) (out : List (List γ))
+    (hL : Truthful keyL divs L) (hR : Truthful keyR divs R) (hlen : out.length = L.length)
+    (hrows : ∀ (j : Nat) o l r, out[j]? = some o → L[j]? = some l → R[j]? = some r →
+      ∀ x ∈ o, (∃ y ∈ l, key x = keyL y) ∨ (∃ z ∈ r, key x = keyR z)) :
+    Truthful key divs out := by
+  obtain ⟨hLlen, hsorted, hLrows⟩ := hL
+  obtain ⟨hRlen, _, hRrows⟩ := hR
+  refine ⟨by omega, hsorted, ?_⟩
+  intro j o lo hi ho hlo hhi x hx
+  have hj : j < out.length := (List.getElem?_eq_some_iff.mp ho).1
+  have hjl := List.getElem?_eq_getElem (l := L) (i := j) (by omega)
+  have hjr := List.getElem?_eq_getElem (l := R) (i := j) (by omega)
+  rcases hrows j o _ _ ho hjl hjr x hx with ⟨y, hy, hk⟩ | ⟨z, hz, hk⟩
+  · have := hLrows j _ lo hi hjl hlo hhi y hy
+    rw [hk]
+    refine ⟨this.1, ?_⟩
+    rcases this.2 with h | ⟨h1, h2⟩
+    · exact Or.inl h
+    · exact Or.inr ⟨by omega, h2⟩
+  · have := hRrows j _ lo hi hjr hlo hhi z hz
+    rw [hk]
+    refine ⟨this.1, ?_⟩
+    rcases this.2 with h | ⟨h1, h2⟩
+    · exact Or.inl h
+    · exact Or.inr ⟨by omega, h2⟩
+
+/-- **`concat` of frames with ordered, non-overlapping divisions** (`d1[-1] < d2[0]`): partitions are simply listed
+    one after the other and the divisions `d1[:-1] + d2` describe them truthfully (the formerly closed last
+    partition of the first frame becomes the half-open `[d1[-2], d2[0])`). -/
+theorem concat_monotonic_truthful {α : Type} (key : α → Nat) (d1 d2 : List Nat) (p1 p2 : List (List α))
+    (h1 : Truthful key d1 p1) (h2 : Truthful key d2 p2) (hp1 : p1 ≠ [])
+    (hlt : ∀ l f, d1.getLast? = some l → d2.head? = some f → l < f) :
+    Truthful key (concatMonoDivs d1 d2) (p1 ++ p2) := by
+  obtain ⟨hl1, hs1, hr1⟩ := h1
+  obtain ⟨hl2, hs2, hr2⟩ := h2
+  have hn1 : 0 < p1.length := List.length_pos_iff.mpr hp1
+  have hdl : d1.dropLast.length = p1.length := by rw [List.length_dropLast]; omega
+  have hget1 : ∀ i, i < p1.length → (concatMonoDivs d1 d2)[i]? = d1[i]? := by
+    intro i hi
+    unfold concatMonoDivs
+    rw [List.getElem?_append_left (by omega), List.getElem?_dropLast, if_pos (by omega)]
+  have hget2 : ∀ i, p1.length ≤ i → (concatMonoDivs d1 d2)[i]? = d2[i - p1.length]? := by
+    intro i hi
+    unfold concatMonoDivs
+    rw [List.getElem?_append_right (by omega), hdl]
+  obtain ⟨l, hl⟩ : ∃ l, d1.getLast? = some l := by
+    cases hq : d1.getLast? with
+    | none => rw [List.getLast?_eq_none_iff] at hq; subst hq; simp at hl1
+    | some v => exact ⟨v, rfl⟩
+  have hlidx : d1[p1.length]? = some l := by
+    rw [List.getLast?_eq_getElem?] at hl
+    rw [← hl]; congr 1; omega
+  have hf0 : d2[0]? = d2.head? := by cases d2 <;> simp
+  refine ⟨by simp only [concatMonoDivs, List.length_append, hdl]; omega, ?_, ?_⟩
+  · unfold concatMonoDivs
+    rw [List.pairwise_append]
+    refine ⟨List.Pairwise.sublist (List.dropLast_sublist _) hs1, hs2, ?_⟩
+    intro a ha b hb
+    have ha' : a ≤ l := le_last_of_mono d1 l hs1 hl a ((List.dropLast_sublist _).subset ha)
+    obtain ⟨f, hf⟩ : ∃ f, d2.head? = some f := by
+      cases d2 with
+      | nil => cases hb
+      | cons x _ => exact ⟨x, rfl⟩
+    have hlf := hlt l f hl hf
+    have hfb : f ≤ b := by
+      cases d2 with
+      | nil => cases hb
+      | cons x xs =>
+        simp only [List.head?_cons, Option.some.injEq] at hf
+        subst hf
+        rcases List.mem_cons.mp hb with rfl | hb'
+        · exact Nat.le_refl _
+        · exact (List.pairwise_cons.mp hs2).1 b hb'
+    omega
+  · intro i p lo hi hp hlo hhi r hr
+    rcases Nat.lt_or_ge i p1.length with hi1 | hi2
+    · -- a partition of the first frame
+      rw [List.getElem?_append_left hi1] at hp
+      rw [hget1 i hi1] at hlo
+      rcases Nat.lt_or_ge (i + 1) p1.length with hn | hn
+      · rw [hget1 (i + 1) hn] at hhi
+        have := hr1 i p lo hi hp hlo hhi r hr
+        refine ⟨this.1, Or.inl ?_⟩
+        rcases this.2 with h | ⟨h, _⟩
+        · exact h
+        · omega
+      · -- the last partition of the first frame: its closed end `l` is below the next division `d2[0]`
+        have hie : i + 1 = p1.length := by omega
+        rw [hget2 (i + 1) (by omega)] at hhi
+        have h0 : i + 1 - p1.length = 0 := by omega
+        rw [h0, hf0] at hhi
+        have hil : d1[i + 1]? = some l := by rw [hie]; exact hlidx
+        have := hr1 i p lo l hp hlo hil r hr
+        have hlf := hlt l hi hl hhi
+        refine ⟨this.1, Or.inl ?_⟩
+        rcases this.2 with h | ⟨_, h⟩ <;> omega
+    · -- a partition of the second frame
+      rw [List.getElem?_append_right hi2] at hp
+      rw [hget2 i hi2] at hlo
+      rw [hget2 (i + 1) (by omega)] at hhi
+      have e : i + 1 - p1.length = i - p1.length + 1 := by omega
+      rw [e] at hhi
+      have := hr2 (i - p1.length) p lo hi hp hlo hhi r hr
+      refine ⟨this.1, ?_⟩
+      rcases this.2 with h | ⟨h, h'⟩
+      · exact Or.inl h
+      · refine Or.inr ⟨?_, h'⟩
+        simp only [List.length_append]; omega
+
+/-- **`repartition(divisions = b)` reports truthful divisions** — `_partial` (certified layers, see
+    `C44.divisions_rows_order_truthful_partial`): for every frame truthful for `a` with partitions in index order and
+    every layer of `RepartitionDivisions` that passes `layerOK a b`, the result is truthful for `b`. -/
+theorem repartition_divisions_truthful_partial {α : Type} (key : α → Nat) (parts : List (List α)) (a b : List Nat)
+    (force : Bool) (L : DLayer) (ht : Truthful key a parts) (hsorted : ∀ p ∈ parts, KeySorted key p)
+    (hb : b.Pairwise (· ≤ ·)) (hL : divisionsLayer a b force = some L) (hok : layerOK a b L = true) :
+    ∃ out, repartitionDivisions key parts a b force = some out ∧ Truthful key b out := by
+  have hb1 : b ≠ [] := by
+    intro he
+    have := divisionsLayer_count a b force L hL
+    rw [he] at this
+    simp at this
+  obtain ⟨out, h1, _, h3⟩ := layer_sound key parts a b L ht hsorted hb hb1 hok
+  refine ⟨out, ?_, h3⟩
+  unfold repartitionDivisions
+  rw [hL]; exact h1
+
+example : concatMonoDivs [0, 3, 5] [7, 9, 9] = [0, 3, 7, 9, 9] := by decide
+
+-- non-vacuity of the hypotheses of `concat_monotonic_truthful`, `aligned_binary_truthful`,
+-- `repartition_divisions_truthful_partial`: concrete truthful frames
+example : Truthful (fun (k : Nat) => k) [0, 3, 5] [[0, 2], [3, 5]] := (truthfulB_iff _ _).mp (by decide)
+example : Truthful (fun (k : Nat) => k) [7, 9, 9] [[7, 8], [9]] := (truthfulB_iff _ _).mp (by decide)
+example : Truthful (fun (k : Nat) => k) (concatMonoDivs [0, 3, 5] [7, 9, 9]) ([[0, 2], [3, 5]] ++ [[7, 8], [9]]) :=
+  (truthfulB_iff _ _).mp (by decide)
+example : (divisionsLayer [0, 3, 5] [0, 2, 4, 5] false).map (layerOK [0, 3, 5] [0, 2, 4, 5]) = some true := by decide
+example : repartitionDivisions (fun (k : Nat) => k) [[0, 2], [3, 5]] [0, 3, 5] [0, 2, 4, 5] false =
+    some [[0], [2, 3], [5]] := by decide
 
 /-! non-vacuity -/
 example : sdl ([(0 : Nat), 0, 1, 1, 1, 1, 2, 2, 4, 5, 5, 5, 5].map id) (.npartitions 4) =
